@@ -21,6 +21,8 @@ GARBAGE = [
     ("cksum_field", b"10=000\x01"),
     ("equals_only", b"="),
     ("ninefield", b"9=5\x01"),
+    # longer than any frame that follows it (a buffer tail that still holds a whole frame must not be re-read)
+    ("long_noise", b"~banner~" * 40),
 ]
 
 POOL = [("SRV", "CLI"), ("ACC", "INI"), ("S1", "T1"), ("EXCH", "FIRM")]
